@@ -52,6 +52,8 @@ type plan struct {
 	// threshold of valid partial reveals aggregates to exactly this value.
 	groupRandao eth2p0.BLSSignature
 
+	aggPlan // the aggregation pipelines (aggkinds_test.go)
+
 	mu       sync.Mutex
 	served   map[eth2p0.Root]string // blocks the nodes' beacon nodes produced for propSlot: root -> "n<i>/view<v>"
 	graffiti *[32]byte              // graffiti of a served block (all nodes request the same default graffiti)
@@ -197,11 +199,12 @@ func proposerDef(v *cluster.Validator, slot uint64) core.DutyDefinitionSet {
 // installBeacon makes every node's beacon node serve the run's further endpoints: Electra attestation
 // data (index 0) and the node view's block for the proposer slot.
 func installBeacon(cl *cluster.Cluster, p *plan, beaconErrs bool) {
-	if !p.electra && !p.proposer {
+	if !p.electra && !p.proposer && !p.aggregator && !p.contrib {
 		return
 	}
 	cl.WithGraffiti = p.proposer
 	cl.BeaconSetup = func(n *cluster.Node) {
+		installAggBeacon(cl, p, n, beaconErrs)
 		if p.electra {
 			orig := n.Beacon.AttData
 			n.Beacon.AttData = func(ctx context.Context, slot eth2p0.Slot, comm eth2p0.CommitteeIndex) (*eth2p0.AttestationData, error) {
